@@ -94,6 +94,12 @@ func refusalGuards(p *Program, f *ssa.Function, depth int) ([]guardInfo, string)
 	var trav []ssa.CallInstruction
 	for _, c := range callsIn(f) {
 		if g := calleeOf(c); takesTrie(g) {
+			// an emptiness predicate (st.isEmpty()) reads a flag; it does not walk the trie
+			if call, ok := c.(*ssa.Call); ok {
+				if _, isPred := predicateNilTarget(call); isPred {
+					continue
+				}
+			}
 			trav = append(trav, c)
 		}
 	}
